@@ -175,7 +175,7 @@ func (c *Ctx) musxRun() map[string]*simpleVerdict {
 	varSets := []map[string]string{
 		{}, {"a": "v"}, {"a": ""}, {"b": "w"}, {"a": "v", "b": "w"}, {"a": "v", "b": ""}, {"A": "Up"}, {"a": "<&\"/\\\n\t>"}, {"B": "x\r\b\f", "a": "ж"}, {"a": "{{b}}", "b": "1"}, {"x_1": "X", "if1": "I"}, {"if": "yes", "unless": ""}, {"unless": "u", "a": "v"}, {"USERNAME": "U1", "aB": "v2"}, {"Username": "U2", "AB": "v3"}, {"username": "U3", "ab": "v4"},
 	}
-	res := map[string]*simpleVerdict{"render": {}, "reject": {}}
+	res := map[string]*simpleVerdict{"render": {}, "reject": {}, "unchanged": {}}
 	var mu sync.Mutex
 	ctor := c.MustFunc("mustache", "", "NewMustacheTemplate")
 	tt := ctor.Signature.Results().At(0).Type()
@@ -185,10 +185,10 @@ func (c *Ctx) musxRun() map[string]*simpleVerdict {
 		wg.Add(1)
 		go func(w int) {
 			defer wg.Done()
-			vr, vj := &simpleVerdict{}, &simpleVerdict{}
+			vr, vj, vu := &simpleVerdict{}, &simpleVerdict{}, &simpleVerdict{}
 			defer func() {
 				mu.Lock()
-				for k, v := range map[string]*simpleVerdict{"render": vr, "reject": vj} {
+				for k, v := range map[string]*simpleVerdict{"render": vr, "reject": vj, "unchanged": vu} {
 					t := res[k]
 					t.runs += v.runs
 					if v.bad != "" && (t.bad == "" || len(v.bad) < len(t.bad)) {
@@ -249,7 +249,18 @@ func (c *Ctx) musxRun() map[string]*simpleVerdict {
 				for _, vars := range varSets {
 					m.steps = 0
 					vr.runs++
-					r, out := m.Call(eval, tmpl, mkMap(vars))
+					given := mkMap(vars)
+					r, out := m.Call(eval, tmpl, given)
+					vu.runs++
+					if len(given.keys) != len(vars) && vu.bad == "" {
+						vu.bad = fmt.Sprintf("%s with %q: rendering adds entries to the caller's variable map (%d keys afterwards)", show, vars, len(given.keys))
+					}
+					for _, ks := range given.keys {
+						kk, _ := given.k[ks].(string)
+						if vv, _ := given.v[ks].(string); vv != vars[kk] && vu.bad == "" {
+							vu.bad = fmt.Sprintf("%s with %q: rendering changes the caller's variable %q to %q", show, vars, kk, vv)
+						}
+					}
 					if out.kind == "panic" {
 						vr.bad = fmt.Sprintf("%s with %q: rendering panics: %s", show, vars, out.why)
 						continue
@@ -300,7 +311,7 @@ func (c *Ctx) musxRun() map[string]*simpleVerdict {
 }
 
 func init() {
-	register(&Rule{ID: "MUS.reference", Floor: 2,
+	register(&Rule{ID: "MUS.reference", Floor: 3,
 		Doc: "the template engine evaluated abstractly (NewMustacheTemplate, SetTemplate, EvaluateWithVariables) on templates printed from generated syntax trees (text with braces/quotes, variables, escaped variables, comments, sections and inverted sections in 8 spellings each, nested, empty, adjacent) × 16 variable maps (present, empty, absent, other key case, values needing escapes): the rendering equals the statement's semantics; 34 malformed templates are rejected",
 		Run: func(c *Ctx) []*Obligation {
 			o := newObl("MUS.reference")
@@ -308,6 +319,7 @@ func init() {
 			pos := c.Pos(c.MustFunc("mustache", "", "NewMustacheTemplate").Pos())
 			o.list = append(o.list, emitSimple(c, "MUS.reference", "mustache.MustacheTemplate#renders-reference-semantics", pos, res["render"], "renderings equal the reference semantics")...)
 			o.list = append(o.list, emitSimple(c, "MUS.reference", "mustache.MustacheTemplate#rejects-malformed", pos, res["reject"], "malformed templates are rejected")...)
+			o.list = append(o.list, emitSimple(c, "MUS.reference", "mustache.MustacheTemplate#leaves-variables-unchanged", pos, res["unchanged"], "renderings leave the caller's variable map unchanged")...)
 			return o.list
 		}})
 }
